@@ -319,8 +319,32 @@ pub(crate) mod alloc {
         /// Duplicate polynomials of the ProverKey (e.g. `q_L`, `q_R` and `q_C`)
         /// are only counted once.
         fn serialization_size(&self) -> usize {
-            // Fetch size in bytes of each Polynomial
-            let poly_size = self.arithmetic.q_m.0.len() * BlsScalar::SIZE;
+            // Fetch size in bytes of the longest Polynomial. The selector and
+            // permutation polynomials are stored trimmed, so their lengths
+            // differ; sizing the buffer from `q_m` alone truncates the
+            // serialization whenever `q_m` happens to be shorter than the
+            // others.
+            let poly_len = [
+                self.arithmetic.q_m.0.len(),
+                self.arithmetic.q_l.0.len(),
+                self.arithmetic.q_r.0.len(),
+                self.arithmetic.q_o.0.len(),
+                self.arithmetic.q_f.0.len(),
+                self.arithmetic.q_c.0.len(),
+                self.arithmetic.q_arith.0.len(),
+                self.logic.q_logic.0.len(),
+                self.range.q_range.0.len(),
+                self.fixed_base.q_fixed_group_add.0.len(),
+                self.variable_base.q_variable_group_add.0.len(),
+                self.permutation.s_sigma_1.0.len(),
+                self.permutation.s_sigma_2.0.len(),
+                self.permutation.s_sigma_3.0.len(),
+                self.permutation.s_sigma_4.0.len(),
+            ]
+            .into_iter()
+            .max()
+            .unwrap_or(0);
+            let poly_size = poly_len * BlsScalar::SIZE;
             // Fetch size in bytes of each Evaluations
             let eval_size = self.arithmetic.q_m.1.evals.len() * BlsScalar::SIZE
                 + EvaluationDomain::SIZE;
